@@ -424,8 +424,9 @@ struct Digit {
                         return QNumberType::Real;
                     }
 
-                    if (number.Natural <= 0x7FFFFFFFFFFFFFFFULL) {
-                        number.Integer = -number.Integer;
+                    if (number.Natural <= 0x8000000000000000ULL) {
+                        // The smallest integer is -2^63; negating the unsigned member is right for it too.
+                        number.Natural = (SizeT64{0} - number.Natural);
                         return QNumberType::Integer;
                     }
                 }
